@@ -6,7 +6,10 @@
 (* end the run with a non-zero exit status before the target is started.   *)
 (*   Fault \in {none, noargs, nofile, unreadable, badyaml, wrongtype,      *)
 (*              unknownaction, unknownsyscall, nosyscalls, kernelrefuses,  *)
-(*              notarget}                                                  *)
+(*              seccompdenied, notarget}                                   *)
+(* (seccompdenied: the command itself runs under an enclosing filter that  *)
+(* answers seccomp(2) with ENOSYS, so that its own filter cannot be        *)
+(* installed - one more way in which "the kernel refuses the filter")      *)
 (* The kernel part (filter survives execve, thread-sync covers the         *)
 (* runtime's threads, the target sees Decide) is Loader.tla's / Compile's. *)
 (* The policy file may be big (larger than any buffer) and the decisive     *)
@@ -14,7 +17,8 @@
 (* policy that is enforced must be the whole file's.                       *)
 (* Dev (never in the code; self-test / seeded changes): "ExecBeforeLoad",  *)
 (* "IgnoreLoadError", "TruncatedRead" (only a prefix of a big file is      *)
-(* parsed), "ZeroMeansUnset" (a default action of kill_thread - numeric    *)
+(* parsed), "SkipWhenUnsupported" (when Supported() answers false the load  *)
+(* is skipped and the target runs without a filter), "ZeroMeansUnset" (a default action of kill_thread - numeric    *)
 (* value 0 - is taken for "not given" and replaced by errno)               *)
 (***************************************************************************)
 EXTENDS Integers, Sequences, TLC
@@ -49,10 +53,12 @@ Parse ==
 Load ==
   /\ pc = "parsed"
   /\ IF "ExecBeforeLoad" \in Dev THEN pc' = "loaded" /\ UNCHANGED <<fault, parsed, loaded, targetStarted, exitCode, events, complete>> /\ UNCHANGED fvars
-     ELSE IF fault \in {"unknownsyscall", "nosyscalls", "kernelrefuses"} /\ Seen /\ "IgnoreLoadError" \notin Dev THEN Fail("load-error")
+     ELSE IF fault = "seccompdenied" /\ "SkipWhenUnsupported" \in Dev
+          THEN pc' = "loaded" /\ UNCHANGED <<fault, parsed, loaded, targetStarted, exitCode, events, complete>> /\ UNCHANGED fvars
+     ELSE IF fault \in {"unknownsyscall", "nosyscalls", "kernelrefuses", "seccompdenied"} /\ Seen /\ "IgnoreLoadError" \notin Dev THEN Fail("load-error")
      ELSE /\ pc' = "loaded"
           \* what is in force is the policy that was parsed: the file's policy only if the whole file was
-          /\ loaded' = (complete /\ fault \notin {"unknownsyscall", "nosyscalls", "kernelrefuses", "badyaml", "wrongtype", "unknownaction"})
+          /\ loaded' = (complete /\ fault \notin {"unknownsyscall", "nosyscalls", "kernelrefuses", "seccompdenied", "badyaml", "wrongtype", "unknownaction"})
           /\ events' = Append(events, "seccomp-ok")
           /\ UNCHANGED <<fault, parsed, targetStarted, exitCode, complete>> /\ UNCHANGED fvars
 Exec ==
